@@ -34,6 +34,9 @@ CLAIMED = {
  "C13": dict(technique="property-based purity/determinism test: random sequences of export calls, before/after snapshots, repeat and twin comparison",
              text="Random sequences over 40 exporter/option/destination combinations (JSON, XML, RDF, PROV-N, get_provn, str, graph, DOT, ==, !=, hash, unified, flattened) run on generated documents; after every call the complete observable state must be unchanged (also when the exporter raises), each text export must repeat identically and agree with a twin built by replaying the recipe (RDF: isomorphic graphs).",
              note="Trusted: snapshot() (public accessors, plus record.bundle links), rdflib.compare.isomorphic for RDF. RDF twin comparison sampled on documents with <= 6 records.", ref="4 C13"),
+ "C14": dict(technique="property-based testing: node/edge census of prov_to_graph and content of graph_to_prov against a reference computed from abstract content (reference unification)",
+             text="Bundle-free recipes over a small identifier pool produce declared/undeclared endpoints, parallel relations, self-loops, merged identifiers and undrawable relations; the expected node multiset (elements of the reference-unified content + one inferred node per undeclared endpoint of an allowed kind, outside any document) and edge multiset (one per drawable relation, first -> second argument, carrying the relation) are compared with the MultiDiGraph, and graph_to_prov with elements + drawable relations.",
+             note="Trusted: reference unification (C08), own argument-position -> kind table. Influence relations with undeclared endpoints and conflicting unifications are discarded with counters.", ref="4 C14"),
 }
 PENDING_REASON = "check not built yet in this round (design in DESIGN.md section 4); not claimed until the check exists and is quiet on the unchanged tree"
 checks = []
